@@ -134,7 +134,7 @@ def specs(tier):
     v = 3 if not big else 4
     single = [
         ("entry0", [("entry", 0, 1, 1, 0, False)]),
-        ("entry1", [("entry", 1, 1, v, 1, False)]),
+        ("entry1", [("entry", 1, 1, 4 if not big else 5, 1, False)]),
         ("entry1t", [("entry", 1, 1, v, 0, True)]),
         ("entry2", [("entry", 2, 1, 2, 0, False)]),
         ("entry-k2", [("entry", 1, 2, 1, 0, False)]),
